@@ -48,7 +48,7 @@ def run_one(s, compatible, attribute):
     try:
         with warnings.catch_warnings():
             warnings.simplefilter('ignore')
-            r = watchdog.call(lambda: sf.decoder(s, compatible=compatible, attribute=attribute), 20)
+            r = watchdog.call(lambda: sf.decoder(s, compatible=compatible, attribute=attribute), 45)
         res = ('ok',)
         if attribute and not (isinstance(r, tuple) and len(r) == 2 and isinstance(r[0], str)):
             res = ('bad-result', repr(r)[:100])
@@ -58,7 +58,7 @@ def run_one(s, compatible, attribute):
         res = ('DecoderError',)
     except watchdog.Hang:
         watchdog.note_hang()
-        return ('slow', 'no result after 20 s')
+        return ('slow', 'no result after 45 s')
     except BaseException as e:
         res = ('escaped', type(e).__name__, str(e)[:120])
     dt = time.time() - t0
